@@ -38,3 +38,8 @@ func init() {
 		return mkStr(in.sliceTerms(buf))
 	})
 }
+
+// internal/stringslite.Clone (used by strconv's error constructors): strings are immutable values.
+func init() {
+	RegisterIntrinsic("internal/stringslite.Clone", func(in *Interp, a []Value, _ *Frame) Value { return a[0] })
+}
